@@ -76,7 +76,13 @@ RULE = ("(a) fmatch: 20..80 beads in an orthorhombic box, LAMMPS dump with "
         "(b) imc_solve: n = 2..40, symmetric and non-symmetric (dense, "
         "near-triangular, prescribed singular values) A, r = |A|^2 * "
         "10^[-6,1], 6..11 printed digits, 1..3 interactions listed in "
-        "shuffled order; 10 % with -r omitted (default 0) and cond(A) <= 32. (c) qrsolve: n = 2..30 unknowns, 1..n-1 constraints "
+        "shuffled order, the spelling of the ranges in turn (a:b; multi-block "
+        "a:b,c:d with non-contiguous row sets per interaction; strided a:s:b "
+        "and descending b:-s:a with interleaved row sets; blanks after commas, "
+        "around colons, several blanks after the name, trailing blanks), every "
+        "table must hold exactly the rows of the expanded index set (keys "
+        "imc_solve/index-spelling/row-count|values, counters "
+        "imc_index_spelling/<class>); 10 % with -r omitted (default 0) and cond(A) <= 32. (c) qrsolve: n = 2..30 unknowns, 1..n-1 constraints "
         "with cond(B) <= 1e4, scale 1e-3..1e3, dense / badly scaled / "
         "spline-structured (real CubicSpline rows) / consistent systems; "
         "non-trivial = the unconstrained minimiser violates the constraints.")
